@@ -5,6 +5,7 @@ of the input matrix are the partial products of the chain the model outputs.
 -/
 import DSymVerif.Proofs.InvariantsDet
 import DSymVerif.Proofs.InvariantsSmall
+import DSymVerif.Proofs.InvariantsTail
 
 namespace DSymVerif.Inv
 open Matrix
@@ -143,5 +144,91 @@ theorem chainPass_uequiv (n m N : ℕ) (e : List ℤ) (hn : e.length ≤ n) (hm 
       hf.2.trans (chainInner_uequiv n m i j hij f (by rw [hf.1]; exact hn) (by rw [hf.1]; exact hm))⟩)
     N e ⟨rfl, UEquiv.refl _⟩
   exact this.2
+
+/-! ### determinantal divisors of the input = partial products of the chain -/
+
+theorem diagonal_getD (D : Mat) (N i : ℕ) (hi : i < N) : (diagonal D N).getD i 0 = get D i i := by
+  unfold diagonal
+  simp [List.getD_eq_getElem?_getD, List.getElem?_map, List.getElem?_range hi]
+
+theorem diagonal_length (D : Mat) (N : ℕ) : (diagonal D N).length = N := by
+  unfold diagonal; simp
+
+theorem zpat_getD {f g : List ℤ} (h : zpat f = zpat g) (i : ℕ) :
+    f.getD i 0 = 0 ↔ g.getD i 0 = 0 := by
+  have hl : f.length = g.length := by
+    have := congrArg List.length h
+    simpa [zpat] using this
+  by_cases hi : i < f.length
+  · have hi' : i < g.length := by omega
+    have := congrArg (fun l => l[i]?) h
+    simp only [zpat, List.getElem?_map, List.getElem?_eq_getElem hi, List.getElem?_eq_getElem hi',
+      Option.map_some, Option.some.injEq, decide_eq_decide] at this
+    simp only [List.getD_eq_getElem?_getD, List.getElem?_eq_getElem hi,
+      List.getElem?_eq_getElem hi', Option.getD_some]
+    exact this
+  · rw [getD_default f i 0 (by omega), getD_default g i 0 (by omega)]
+
+/-- what the model does after `diagonalize_in_place`, in terms of determinantal divisors -/
+theorem dk_of_model (mat D : Mat) (r n : ℕ) (hR : Rect mat r n) (hr : 0 < r)
+    (hS : SmallRun (List.range (min r n)) mat) (h : diagonalize mat = some D) :
+    (chainPass (min r n) (diagonal D (min r n))).length = min r n ∧
+    (∀ x ∈ chainPass (min r n) (diagonal D (min r n)), 0 ≤ x) ∧
+    (∀ i j, i ≤ j → (chainPass (min r n) (diagonal D (min r n))).getD i 0 ∣
+      (chainPass (min r n) (diagonal D (min r n))).getD j 0) ∧
+    ∀ k, k ≤ min r n → dk (toMatrix mat r n) k =
+      (∏ i ∈ Finset.range k, (chainPass (min r n) (diagonal D (min r n))).getD i 0).natAbs := by
+  obtain ⟨hdiag, hU⟩ := diagonalize_diagonal' mat D r n
+    (fun M => UEquiv (toMatrix mat r n) (toMatrix M r n)) (closed_uequiv r n _) hR hr hS
+    (UEquiv.refl _) h
+  obtain ⟨D', hD', hRD⟩ := diagonalize_some mat r n hR hr
+  rw [h] at hD'; injection hD' with hD'; subst hD'
+  have htail := diagonalize_tail mat D r n hR hr hS h
+  have hnn := diagonalize_diag_nonneg mat D r n hR hr h
+  have hlen0 := diagonal_length D (min r n)
+  have hlen : (chainPass (min r n) (diagonal D (min r n))).length = min r n := by
+    have := chainPass_length (diagonal D (min r n))
+    rw [hlen0] at this; exact this
+  have hnonneg : ∀ x ∈ chainPass (min r n) (diagonal D (min r n)), 0 ≤ x := by
+    apply chainPass_nonneg
+    intro x hx
+    unfold diagonal at hx
+    obtain ⟨k, hk, rfl⟩ := List.mem_map.mp hx
+    rw [List.mem_range] at hk
+    exact hnn k (by omega) (by omega)
+  have hz := chainPass_zpat (min r n) (diagonal D (min r n))
+  have hchain : ∀ i j, i ≤ j → (chainPass (min r n) (diagonal D (min r n))).getD i 0 ∣
+      (chainPass (min r n) (diagonal D (min r n))).getD j 0 := by
+    intro i j hij
+    by_cases hj : j < min r n
+    · by_cases heq : i = j
+      · subst heq; exact dvd_refl _
+      · have hlt : i < j := by omega
+        by_cases h0 : (chainPass (min r n) (diagonal D (min r n))).getD i 0 = 0
+        · have e0 : (diagonal D (min r n)).getD i 0 = 0 := (zpat_getD hz i).mp h0
+          rw [diagonal_getD D _ i (by omega)] at e0
+          have ej := htail i j hlt hj e0
+          rw [← diagonal_getD D _ j hj] at ej
+          rw [(zpat_getD hz j).mpr ej]
+          exact dvd_zero _
+        · have := chainPass_chain (diagonal D (min r n)) i j hlt (by rw [hlen0]; exact hj)
+            (by rw [hlen0]; exact h0)
+          rw [hlen0] at this
+          exact this
+    · rw [getD_default _ j 0 (by rw [hlen]; omega)]
+      exact dvd_zero _
+  refine ⟨hlen, hnonneg, hchain, ?_⟩
+  intro k hk
+  have hD : toMatrix D r n = diagL (diagonal D (min r n)) r n := by
+    ext a b
+    simp only [toMatrix, diagL, diagF]
+    by_cases hab : a.val = b.val
+    · rw [if_pos hab, diagonal_getD D _ a.val (by have := a.isLt; have := b.isLt; omega), ← hab]
+    · rw [if_neg hab]; exact hdiag a.val b.val a.isLt b.isLt hab
+  have h1 := hU.dk_eq k
+  have h2 := (chainPass_uequiv r n (min r n) (diagonal D (min r n)) (by rw [hlen0]; omega)
+    (by rw [hlen0]; omega)).dk_eq k
+  rw [h1, hD, h2]
+  exact dk_diagF _ hchain r n k (by omega) (by omega)
 
 end DSymVerif.Inv
